@@ -75,7 +75,13 @@ def coin_sources(facts):
 
         def v(n):
             if n.get("k") == "Assign" and is_this_field(n["l"], ("coin_",)):
-                defs.append((fn, n["r"], n["op"], n["loc"]))
+                r = strip_all(n["r"])
+                if r.get("k") == "Cond" and "coin_" not in txt(r["c"]):
+                    # coin_ = c ? a : b defines the coin by a or by b (the facts normaliser writes an if / else assignment so)
+                    defs.append((fn, r["a"], n["op"], n["loc"]))
+                    defs.append((fn, r["e"], n["op"], n["loc"]))
+                else:
+                    defs.append((fn, n["r"], n["op"], n["loc"]))
             if n.get("k") in ("Assign", "Un") and is_this_field(n.get("l") or n.get("e") or {}, ("state_",)):
                 state_writers.append((fn, n))
         walk(fn["body"], v)
@@ -116,6 +122,21 @@ def coin_sources(facts):
         key = "req_compactor::compact:one-draw"
         ok = False
         why = "no `if (odd state) coin_ = !coin_ else coin_ = random_bit()` found"
+        # canonical form (normaliser S10): coin_ = odd ? !coin_ : random_bit();
+        conds = [strip(x["e"]) for x in st if x.get("k") == "Expr" and isinstance(strip(x.get("e")), dict) and strip(x["e"]).get("k") == "Assign" and strip(x["e"]).get("op") == "=" and is_this_field(strip(x["e"])["l"], ("coin_",)) and strip_all(strip(x["e"])["r"]).get("k") == "Cond"]
+        if len(conds) == 1 and not ifs:
+            cnd = strip_all(conds[0]["r"])
+            c = txt(cnd["c"])
+            all_draws = []
+            walk(fn["body"], lambda n: all_draws.append(n) if n.get("k") == "OpCall" and is_coin_call(n) else None)
+            all_defs = [n for n in _assigns(fn["body"]) if is_this_field(n.get("l") or {}, ("coin_",))]
+            if "coin_" in c:
+                why = "the condition that decides whether to draw tests the coin itself (`%s`): the number of flips depends on outcomes" % c
+            elif len(all_draws) == 1 and len(all_defs) == 1:
+                ok = True
+                why = "coin_ is defined once as `%s ? .. : ..`, at most one draw, condition independent of the coin" % c
+            else:
+                why = "coin_ assigned %d times, %d draws in compact()" % (len(all_defs), len(all_draws))
         if len(ifs) == 1 and ifs[0].get("e") is not None:
             c = txt(ifs[0]["c"])
             ta, ea = _assigns(ifs[0]["t"]), _assigns(ifs[0]["e"])
